@@ -38,6 +38,9 @@ func main() {
 	if t := os.Getenv("VERIF_TIER"); t != "" && !isFlagSet("tier") {
 		*tier = t
 	}
+	if *prop == "ALL" {
+		os.Exit(runAll(*tier, *repo, *verif))
+	}
 	check, ok := rules.Registry[*prop]
 	if !ok {
 		fmt.Fprintf(os.Stderr, "unknown property %q\n", *prop)
@@ -106,4 +109,43 @@ func isFlagSet(name string) bool {
 		}
 	})
 	return set
+}
+
+// runAll loads the default configuration once and runs every registered
+// property check on it (development aid for matrix runs; evidence files are
+// written per property exactly as in single runs).
+func runAll(tier, repo, verif string) int {
+	p, err := load.Load(load.Config{Dir: repo, GOOS: "linux", GOARCH: "amd64"})
+	if err != nil {
+		fmt.Println("load failed:", err)
+		return 1
+	}
+	var ids []string
+	for id := range rules.Registry {
+		if id != "DBG" {
+			ids = append(ids, id)
+		}
+	}
+	sort.Strings(ids)
+	rc := 0
+	for _, id := range ids {
+		run := report.NewRun(id, tier, 0, verif)
+		run.CheckerCmd = "bin/vcheck -property ALL"
+		if m, ok := rules.Metas[id]; ok {
+			run.Explanation, run.Decided, run.NotDecided, run.Assumptions = m.Explanation, m.Decided, m.NotDecided, m.Assumptions
+		}
+		run.SetConfig("linux/amd64 tags=-")
+		func() {
+			defer func() {
+				if e := recover(); e != nil {
+					run.Undecf("checker", "-", "panic", "-", "the analyser must not fail", fmt.Sprintf("panic: %v\n%s", e, debug.Stack()))
+				}
+			}()
+			rules.Registry[id](&rules.Ctx{P: p, R: run, Tier: tier, Depth: 3})
+		}()
+		if run.Finish() != 0 {
+			rc = 1
+		}
+	}
+	return rc
 }
